@@ -31,6 +31,7 @@ import (
 )
 
 type impWant struct {
+	join     bool // translate `if` by joining the assigned variables instead of duplicating what follows
 	dir, pkg string
 	funcs    []string          // "Name" or "Recv.Name", in dependency order
 	globals  map[string]string // package-level variable -> Gallina term (Model/GoGlobals.v)
@@ -47,6 +48,10 @@ var impWants = []impWant{
 	{dir: "align", pkg: "align",
 		funcs: []string{"SubstitutionMatrix.Get", "decideOnStep", "traceAlignmentSteps", "Global",
 			"argmax", "traceAlignmentStepsLocal", "Local"}},
+	{dir: "formats/fasta", pkg: "fasta", funcs: []string{"Fasta.Write"}, join: true},
+	{dir: "formats/fastq", pkg: "fastq", funcs: []string{"Fastq.Write"}, join: true},
+	{dir: "formats/bed", pkg: "bed", funcs: []string{"BED.Write"}, join: true},
+	{dir: "formats/newick", pkg: "newick", funcs: []string{"quoted", "nameFromText", "nameToText"}},
 }
 
 type impFn struct {
@@ -76,9 +81,12 @@ type impTr struct {
 	tmp      int
 	fuel     bool
 	yield    types.Object // callback parameter of an iterator literal
+	writer   types.Object // io.Writer parameter of a Write method: fmt.Fprintf to it emits a chunk
 	endK     string       // continuation at the end of the function body
 	retWrap  func(string) string
 	fnName   string
+	join     bool
+	results  *types.Tuple
 	loopVars []map[types.Object]bool
 }
 
@@ -134,7 +142,12 @@ func isSetMap(ty types.Type) bool {
 	return ok && s.NumFields() == 0
 }
 
+func isError(ty types.Type) bool { return ty != nil && ty.String() == "error" }
+
 func (t *impTr) ty(ty types.Type) string {
+	if isError(ty) {
+		return "bool" // true: a non-nil error
+	}
 	if n, ok := ty.(*types.Named); ok {
 		if _, ok := n.Underlying().(*types.Struct); ok {
 			t.record(n)
@@ -185,6 +198,9 @@ func (t *impTr) ty(ty types.Type) string {
 }
 
 func (t *impTr) zero(ty types.Type) string {
+	if isError(ty) {
+		return "false"
+	}
 	if n, ok := ty.(*types.Named); ok {
 		if s, ok := n.Underlying().(*types.Struct); ok {
 			t.record(n)
@@ -497,6 +513,13 @@ func (t *impTr) binary(e *ast.BinaryExpr, pre *[]opener) string {
 		return v
 	}
 	// comparison with nil
+	if id, ok := e.Y.(*ast.Ident); ok && id.Name == "nil" && (e.Op == token.EQL || e.Op == token.NEQ) && isError(lt) {
+		x := t.ex(e.X, pre)
+		if e.Op == token.EQL {
+			return "(negb " + x + ")"
+		}
+		return x
+	}
 	if id, ok := e.Y.(*ast.Ident); ok && id.Name == "nil" && (e.Op == token.EQL || e.Op == token.NEQ) {
 		if _, ok := lt.Underlying().(*types.Slice); !ok {
 			t.fail(e, "comparison of a non-slice with nil")
@@ -543,6 +566,12 @@ func (t *impTr) binop(n ast.Node, op token.Token, a, b string, lt, rt types.Type
 			return fmt.Sprintf("(negb (Bool.eqb %s %s))", a, b)
 		}
 		t.fail(n, "operator %s on bool", op)
+	}
+	if bt.Info()&types.IsString != 0 {
+		if op == token.ADD {
+			return fmt.Sprintf("(%s ++ %s)", a, b)
+		}
+		t.fail(n, "operator %s on strings", op)
 	}
 	if isByte(lt) != isByte(rt) {
 		t.fail(n, "operands of different kinds: %s, %s", lt, rt)
@@ -686,12 +715,26 @@ func (t *impTr) call(e *ast.CallExpr, pre *[]opener) string {
 		}
 		x := t.ex(e.Args[0], pre)
 		v := t.fresh()
-		*pre = append(*pre, opener{fmt.Sprintf("(let out__ := out__ ++ [%s] in (fun %s => ", x, v), ") true)"})
+		*pre = append(*pre, opener{fmt.Sprintf("(let out__ := out__ ++ [%s] in let %s := true in ", x, v), ")"})
 		return v
 	}
 	if obj != nil && obj.Pkg() != nil {
 		full := obj.Pkg().Path() + "." + obj.Name()
 		switch full {
+		case "fmt.Errorf", "errors.New":
+			return "true"
+		case "strings.ContainsAny":
+			return fmt.Sprintf("(go_contains_any %s %s)", t.ex(e.Args[0], pre), t.ex(e.Args[1], pre))
+		case "strings.ReplaceAll":
+			return fmt.Sprintf("(go_replace_all %s %s %s)", t.ex(e.Args[0], pre), t.ex(e.Args[1], pre), t.ex(e.Args[2], pre))
+		case "fmt.Fprintf":
+			if id, ok := e.Args[0].(*ast.Ident); !ok || t.writer == nil || t.info.Uses[id] != t.writer {
+				t.fail(e, "Fprintf to something other than the Write method's writer")
+			}
+			chunk := t.fmtChunk(e, pre)
+			v := t.fresh()
+			*pre = append(*pre, opener{fmt.Sprintf("(let out__ := out__ ++ [%s] in let %s := (0%%Z, false) in ", chunk, v), ")"})
+			return v
 		case "bytes.Compare":
 			return fmt.Sprintf("(go_bytes_compare %s %s)", t.ex(e.Args[0], pre), t.ex(e.Args[1], pre))
 		case "sort.Search":
@@ -803,6 +846,9 @@ func (t *impTr) assigned(n ast.Node) ([]types.Object, bool) {
 		case *ast.CallExpr:
 			if o := t.calleeObj(s.Fun); o != nil {
 				if t.yield != nil && o == t.yield {
+					yields = true
+				}
+				if t.writer != nil && o.Pkg() != nil && o.Pkg().Path() == "fmt" && o.Name() == "Fprintf" {
 					yields = true
 				}
 				if o.Pkg() != nil {
@@ -1018,7 +1064,11 @@ func (t *impTr) block(list []ast.Stmt, k string, lc *loopCtx) string {
 		return wrapOpeners(pre, rest())
 	case *ast.ReturnStmt:
 		var vals []string
-		for _, r := range s.Results {
+		for i, r := range s.Results {
+			if id, ok := r.(*ast.Ident); ok && id.Name == "nil" && t.results != nil && i < t.results.Len() && isError(t.results.At(i).Type()) {
+				vals = append(vals, "false")
+				continue
+			}
 			vals = append(vals, t.ex(r, &pre))
 		}
 		return wrapOpeners(pre, t.retWrap(strings.Join(vals, ", ")))
@@ -1047,6 +1097,20 @@ func (t *impTr) block(list []ast.Stmt, k string, lc *loopCtx) string {
 			return t.block(append(append(stmts, &cp), list[1:]...), k, lc)
 		}
 		c := t.ex(s.Cond, &pre)
+		if t.join && len(list) > 1 && !hasBranch(s) {
+			// join: the if statement as a computation of the variables it assigns
+			objs, yields := t.assigned(s)
+			state := t.tuple(objs, yields)
+			thenJ := t.block(s.Body.List, "Next "+state, nil)
+			elseJ := "Next " + state
+			switch e := s.Else.(type) {
+			case *ast.BlockStmt:
+				elseJ = t.block(e.List, "Next "+state, nil)
+			case *ast.IfStmt:
+				elseJ = t.block([]ast.Stmt{e}, "Next "+state, nil)
+			}
+			return wrapOpeners(pre, fmt.Sprintf("after (if %s then %s else %s) (fun %s => %s)", c, thenJ, elseJ, pat(state), rest()))
+		}
 		thenB := t.block(append(append([]ast.Stmt{}, s.Body.List...), list[1:]...), k, lc)
 		var elseB string
 		switch e := s.Else.(type) {
@@ -1178,6 +1242,14 @@ func (t *impTr) assign(s *ast.AssignStmt, pre *[]opener) {
 		call, ok := s.Rhs[0].(*ast.CallExpr)
 		if !ok {
 			t.fail(s, "unsupported multi-value assignment")
+		}
+		if o := t.calleeObj(call.Fun); o != nil && o.Pkg() != nil && o.Pkg().Path() == "fmt" && o.Name() == "Fprintf" {
+			if id, ok := s.Lhs[0].(*ast.Ident); !ok || id.Name != "_" || len(s.Lhs) != 2 {
+				t.fail(s, "the byte count of Fprintf is used")
+			}
+			v := t.call(call, pre)
+			t.store(s.Lhs[1], "(snd "+v+")", pre)
+			return
 		}
 		fn, ok := t.fns[t.calleeObj(call.Fun)]
 		if !ok {
@@ -1363,6 +1435,18 @@ func (t *impTr) forStmt(s *ast.ForStmt, rest func() string) string {
 	return loop
 }
 
+// hasBranch reports whether n contains a break, continue, goto or fallthrough.
+func hasBranch(n ast.Node) bool {
+	found := false
+	ast.Inspect(n, func(m ast.Node) bool {
+		if _, ok := m.(*ast.BranchStmt); ok {
+			found = true
+		}
+		return true
+	})
+	return found
+}
+
 func objNames(objs []types.Object) []string {
 	var out []string
 	for _, o := range objs {
@@ -1404,6 +1488,9 @@ func (t *impTr) function(fd *ast.FuncDecl, coqName string) *impFn {
 	var params []string
 	addParam := func(n *ast.Ident) {
 		o := t.info.Defs[n]
+		if o.Type().String() == "io.Writer" {
+			return // the writer is the list of emitted chunks
+		}
 		params = append(params, fmt.Sprintf("(%s : %s)", t.nameOf(o), t.ty(o.Type())))
 	}
 	if fd.Recv != nil {
@@ -1417,6 +1504,13 @@ func (t *impTr) function(fd *ast.FuncDecl, coqName string) *impFn {
 		}
 	}
 	sig := t.info.Defs[fd.Name].Type().(*types.Signature)
+	t.results = sig.Results()
+	t.writer = nil
+	for i := 0; i < sig.Params().Len(); i++ {
+		if sig.Params().At(i).Type().String() == "io.Writer" {
+			t.writer = sig.Params().At(i)
+		}
+	}
 	body := fd.Body.List
 	var rt, text string
 	// an iterator constructor:  return func(yield func(T) bool) { ... }
@@ -1446,6 +1540,37 @@ func (t *impTr) function(fd *ast.FuncDecl, coqName string) *impFn {
 		}
 		rt = t.ty(sig.Results())
 		end := "Panics" // falling off the end of a function with results does not compile
+		if sig.Results().Len() == 0 {
+			end = "Ret tt"
+		}
+		if t.writer != nil {
+			// a Write method: the result is (the chunks written, the returned values)
+			rt = "(list (list N) * " + rt + ")"
+			pre = append(pre, opener{"let out__ : list (list N) := [] in ", ""})
+			inner := func(v string) string {
+				if v == "" {
+					return "tt"
+				}
+				return v
+			}
+			t.retWrap = func(v string) string { return "Ret (out__, " + inner(v) + ")" }
+			if sig.Results().Len() == 0 {
+				end = "Ret (out__, tt)"
+			}
+			text = wrapOpeners(pre, t.block(body, end, nil))
+		}
+	}
+	if t.yield == nil && t.writer == nil {
+		var pre []opener
+		var resNames []string
+		if sig.Results().Len() > 0 && sig.Results().At(0).Name() != "" {
+			for i := 0; i < sig.Results().Len(); i++ {
+				r := sig.Results().At(i)
+				pre = append(pre, opener{fmt.Sprintf("let %s : %s := %s in ", t.nameOf(r), t.ty(r.Type()), t.zero(r.Type())), ""})
+				resNames = append(resNames, t.nameOf(r))
+			}
+		}
+		end := "Panics"
 		if sig.Results().Len() == 0 {
 			end = "Ret tt"
 		}
@@ -1511,7 +1636,7 @@ func genImp(repo, out string) {
 			panic(fmt.Sprintf("type-checking %s: %v", want.dir, err))
 		}
 		t := &impTr{pkg: want.pkg, info: info, fset: fset, fns: map[types.Object]*impFn{}, globals: want.globals,
-			records: map[string]bool{}}
+			records: map[string]bool{}, join: want.join}
 		fmt.Fprintf(sb, "(* ---- package %s ---- *)\n", want.dir)
 		for _, fname := range want.funcs {
 			recv, name := "", fname
@@ -1552,4 +1677,83 @@ func genImp(repo, out string) {
 		}
 	}
 	writeIfChanged(out, sb.String())
+}
+
+// fmtChunk builds the bytes that fmt.Fprintf(w, format, args...) writes: for a literal
+// format, literal text as bytes, %s / %v of a string or []byte as the bytes, %d / %v of an
+// integer as Base.itoa; for a format held in a string variable and one integer argument,
+// GoSem.go_fmt1 (the first %v is replaced by the number).
+func (t *impTr) fmtChunk(call *ast.CallExpr, pre *[]opener) string {
+	args := call.Args[2:]
+	argText := func(a ast.Expr, verb byte) string {
+		ty := t.typeOf(a)
+		x := t.ex(a, pre)
+		switch u := ty.Underlying().(type) {
+		case *types.Basic:
+			switch {
+			case u.Info()&types.IsString != 0 && (verb == 's' || verb == 'v'):
+				return x
+			case u.Kind() == types.Uint8 && (verb == 'd' || verb == 'v'):
+				return "itoa (Z.of_N " + x + ")"
+			case u.Info()&types.IsInteger != 0 && (verb == 'd' || verb == 'v'):
+				return "itoa " + x
+			}
+		case *types.Slice:
+			if isByte(u.Elem()) && (verb == 's' || verb == 'v') {
+				return x
+			}
+		}
+		t.fail(a, "unsupported verb %%%c for %s", verb, ty)
+		return ""
+	}
+	tv := t.info.Types[call.Args[1]]
+	if tv.Value == nil {
+		if len(args) != 1 {
+			t.fail(call, "computed format with %d arguments", len(args))
+		}
+		f := t.ex(call.Args[1], pre)
+		return fmt.Sprintf("go_fmt1 %s (%s)", f, argText(args[0], 'v'))
+	}
+	format := constant.StringVal(tv.Value)
+	var pieces []string
+	var lits []byte
+	flush := func() {
+		if len(lits) > 0 {
+			nums := make([]string, len(lits))
+			for i, b := range lits {
+				nums[i] = fmt.Sprintf("%d%%N", b)
+			}
+			pieces = append(pieces, "["+strings.Join(nums, "; ")+"]")
+			lits = nil
+		}
+	}
+	ai := 0
+	for i := 0; i < len(format); i++ {
+		if format[i] != '%' {
+			lits = append(lits, format[i])
+			continue
+		}
+		i++
+		if i >= len(format) {
+			t.fail(call, "format ends with %%")
+		}
+		if format[i] == '%' {
+			lits = append(lits, '%')
+			continue
+		}
+		if ai >= len(args) {
+			t.fail(call, "too few arguments for %q", format)
+		}
+		flush()
+		pieces = append(pieces, argText(args[ai], format[i]))
+		ai++
+	}
+	flush()
+	if ai != len(args) {
+		t.fail(call, "too many arguments for %q", format)
+	}
+	if len(pieces) == 0 {
+		return "[]"
+	}
+	return strings.Join(pieces, " ++ ")
 }
